@@ -3,7 +3,7 @@
     for a schema whose root content model m is deterministic (upa_ok(m)) and accepted by the builder,
     is_valid(doc(w)) <=> w in L(m), and a rejected w yields an error attached to the parent element.
 
-Deciding scope (fixed, seed independent): cm.two_level_models() x words over {a,b} up to length 5, both schema classes;
+Deciding scope (fixed, seed independent): cm.two_level_models() and its mirror cm.two_level_models_rev() (sibling before the nested group) x words over {a,b} up to length 5, both schema classes;
 plus cm.variant_models() (wildcard leaves, all groups) x words over {a,b,x} up to length 4.  Mismatches recorded on the
 unchanged tree are listed per (class, model) with their exact word sets in baseline/C01_instances.json.
 """
@@ -72,6 +72,7 @@ def check(models, wordset, tier, seed, known, label, k):
 def run(tier, seed, open_findings):
     known = load_instances('C01_instances.json') if 'C01-single-particle-group-counter' in open_findings else {}
     out = [check(list(cm.two_level_models()), 2, tier, seed, known, 'C01.two_level_models', 6),
+           check(list(cm.two_level_models_rev()), 2, tier, seed, known, 'C01.two_level_models_rev', 6),
            check(list(cm.variant_models()), 3, tier, seed, known, 'C01.variant_models', 1)]
     return out
 
